@@ -79,6 +79,17 @@ var gDirect = bigslice.Func(func(r bigslice.Slice) bigslice.Slice {
 	return bigslice.Reduce(r, func(a, b int) int { return a + b })
 })
 
+// gReshard: Reshard applied directly to the result (identity when n equals the
+// result's shard count).
+var gReshard = bigslice.Func(func(r bigslice.Slice, n int) bigslice.Slice {
+	return bigslice.Reshard(r, n)
+})
+
+// gRepart: Repartition applied directly to the result, by (mul*k+add) mod nshard.
+var gRepart = bigslice.Func(func(r bigslice.Slice, mul, add int) bigslice.Slice {
+	return bigslice.Repartition(r, func(nshard, k, v int) int { return (mul*k + add) % nshard })
+})
+
 // ---- model --------------------------------------------------------------------
 
 type row [2]int
@@ -137,6 +148,8 @@ func modelUse(kind byte, src []row) []row {
 		return reduceRows(out)
 	case 'D':
 		return reduceRows(src)
+	case 'A', 'B', 'Q', 'U':
+		return src // a redistribution keeps the multiset of rows
 	}
 	panic("kind")
 }
@@ -181,6 +194,10 @@ func isPrefix(got, want []string) bool {
 // ---- records exchanged between child and parent --------------------------------
 
 type viol struct {
+	// Safety: wrong rows delivered by a successful use. Unlike an error or a hang
+	// this cannot be an artefact of a busy host, so one occurrence is a violation
+	// (it is still re-executed and the reproduction count recorded).
+	Safety bool                   `json:"safety,omitempty"`
 	Sig    string                 `json:"sig"`
 	What   string                 `json:"what"`
 	Detail map[string]interface{} `json:"detail"`
@@ -214,6 +231,7 @@ type world struct {
 	discarded  [2]bool
 	killed     bool
 	badDirect  bool
+	directs    [2][]byte // direct-redistribution ops applied to r_i so far
 	rec        *histRec
 }
 
@@ -284,7 +302,8 @@ func (w *world) violate(opi int, sig, what string, extra map[string]interface{})
 	for k, v := range extra {
 		d[k] = v
 	}
-	w.rec.Viol = append(w.rec.Viol, viol{Sig: "C12/H/" + w.kind + "/" + sig, What: what, Detail: d})
+	safety := strings.Contains(sig, "wrong-rows") || extra["wrong_rows"] == true
+	w.rec.Viol = append(w.rec.Viol, viol{Safety: safety, Sig: "C12/H/" + w.kind + "/" + sig, What: what, Detail: d})
 }
 
 func scanAll(ctx context.Context, r *exec.Result) (rows []string, err error) {
@@ -314,13 +333,18 @@ func (w *world) runSrc(ctx context.Context, tag int) (*exec.Result, error) {
 		return w.sess.Run(ctx, fSrc, 1, tag)
 	case "s2":
 		return w.sess.Run(ctx, fSrc, 2, tag)
+	case "s3":
+		return w.sess.Run(ctx, fSrc, 3, tag)
 	case "sh":
 		return w.sess.Run(ctx, fSrcShuf, tag)
 	}
 	panic("prog " + w.prog)
 }
 
-var opNames = map[byte]string{'P': "pipelined", 'H': "shuffle", 'D': "direct-shuffle"}
+var opNames = map[byte]string{'P': "pipelined", 'H': "shuffle", 'D': "direct-reduce",
+	'A': "direct-reshard-2", 'B': "direct-reshard-3", 'Q': "direct-repartition-k", 'U': "direct-repartition-2k+1"}
+
+func isDirect(c byte) bool { return strings.IndexByte("DABQU", c) >= 0 }
 
 // step executes op number opi; it returns false when the history cannot continue.
 func (w *world) step(ctx context.Context, opi int) bool {
@@ -332,7 +356,7 @@ func (w *world) step(ctx context.Context, opi int) bool {
 	}
 	// outcome of the op, tagged with what happened to its operand before
 	tag := ""
-	if strings.IndexByte("SPHDX", op[0]) >= 0 {
+	if strings.IndexByte("SPHDXABQU", op[0]) >= 0 {
 		tag = "[" + w.cond(idx) + "]"
 	}
 	out := func(s string) { w.rec.Outcomes = append(w.rec.Outcomes, op+tag+":"+s) }
@@ -397,36 +421,64 @@ func (w *world) step(ctx context.Context, opi int) bool {
 				mech(fmt.Sprintf("scan/gone/error-after-%d-rows", len(rows)))
 			}
 		}
-	case 'P', 'H', 'D':
+	case 'P', 'H', 'D', 'A', 'B', 'Q', 'U':
 		src, _ := modelSrc(w.prog, idx)
 		want := sorted(fmtRows(modelUse(op[0], src)))
 		cond := w.cond(idx)
 		lost := !w.allOK(idx)
 		var g *bigslice.FuncValue
+		args := []interface{}{w.res[idx]}
 		switch op[0] {
 		case 'P':
 			g = gPipe
 		case 'H':
 			g = gShuf
-		default:
+		case 'D':
 			g = gDirect
+		case 'A':
+			g, args = gReshard, append(args, 2)
+		case 'B':
+			g, args = gReshard, append(args, 3)
+		case 'Q':
+			g, args = gRepart, append(args, 1, 0)
+		default: // 'U'
+			g, args = gRepart, append(args, 2, 1)
+		}
+		// earlier direct redistributions of the same result
+		earlier := string(w.directs[idx])
+		relation := ""
+		if isDirect(op[0]) {
+			if earlier != "" {
+				relation = "same-redistribution"
+				for i := range earlier {
+					if earlier[i] != op[0] {
+						relation = "different-redistribution"
+					}
+				}
+			}
+			w.directs[idx] = append(w.directs[idx], op[0])
 		}
 		sigOf := func(oracle string) string {
-			if op[0] == 'D' {
-				// known suspected defect (DESIGN §9 #5, owned by C08): one signature per executor
+			switch {
+			case isDirect(op[0]) && relation == "":
+				// first direct redistribution of this result (DESIGN §9 #5, C08-1): one signature per executor
 				return "direct-shuffle-of-result"
+			case isDirect(op[0]):
+				// a result that was already re-shuffled directly by an earlier invocation
+				short := map[string]string{"func-over-result-fails": "fails", "scan-of-fresh-func-result-fails": "scan-fails", "func-over-result-wrong-rows": "wrong-rows"}[oracle]
+				return "second-direct-reshuffle-" + short + "/" + relation
 			}
 			return oracle + "/" + opNames[op[0]] + "/" + cond
 		}
-		d, err := w.sess.Run(ctx, g, w.res[idx])
+		d, err := w.sess.Run(ctx, g, args...)
 		if err != nil {
 			if d != nil {
 				w.derived = append(w.derived, d)
 			}
 			w.violate(opi, sigOf("func-over-result-fails"),
 				"Run of a Func ("+opNames[op[0]]+") over a result returned an error (it must recompute what is missing and succeed)",
-				map[string]interface{}{"error": errStr(err), "want_rows": want, "condition": cond})
-			if op[0] == 'D' {
+				map[string]interface{}{"error": errStr(err), "want_rows": want, "condition": cond, "earlier_direct_redistributions_of_this_result": earlier})
+			if isDirect(op[0]) {
 				w.badDirect = true
 			}
 			out("runerr")
@@ -435,7 +487,10 @@ func (w *world) step(ctx context.Context, opi int) bool {
 		w.derived = append(w.derived, d)
 		rows, serr := scanAll(ctx, d)
 		got := sorted(rows)
-		ex := map[string]interface{}{"want_rows(sorted)": want, "got_rows(sorted)": got, "error": errStr(serr), "condition": cond}
+		ex := map[string]interface{}{"want_rows(sorted)": want, "got_rows(sorted)": got, "error": errStr(serr), "condition": cond, "earlier_direct_redistributions_of_this_result": earlier}
+		if relation != "" {
+			mech("func/direct/second-redistribution-of-a-result/" + relation)
+		}
 		switch {
 		case serr != nil && w.sys != nil && w.killed && subMultiset(got, want):
 			// the scan of the fresh result is itself a direct scan; after a machine
@@ -447,6 +502,7 @@ func (w *world) step(ctx context.Context, opi int) bool {
 				"the result of a successful Run of a Func ("+opNames[op[0]]+") over a result could not be scanned", ex)
 			out("scanerr-UNEXPECTED")
 		case !eqStrings(got, want):
+			ex["wrong_rows"] = true
 			w.violate(opi, sigOf("func-over-result-wrong-rows"),
 				"a Func ("+opNames[op[0]]+") over a result succeeded but did not observe the rows of the first evaluation", ex)
 			out("ok-WRONG")
@@ -691,6 +747,7 @@ type job struct {
 	idx        int
 	kind, prog string
 	ops        []string
+	space      string // "A" general alphabet, "B" direct-redistribution family
 }
 
 // enumerate lists every history of exactly the given length.
@@ -707,7 +764,7 @@ func enumerate(kind string, length int) [][]string {
 			return
 		}
 		for i := 0; i < nres; i++ {
-			for _, o := range []string{"S", "P", "H", "X", "D"} {
+			for _, o := range []string{"S", "P", "H", "X"} {
 				rec(append(h, fmt.Sprintf("%s%d", o, i)), nres)
 			}
 		}
@@ -720,6 +777,33 @@ func enumerate(kind string, length int) [][]string {
 		}
 	}
 	rec(nil, 0)
+	return out
+}
+
+// enumerateB lists the histories of exactly the given length of space B: R followed
+// by operations on r0 out of the direct redistributions D0 A0 B0 Q0 U0, Discard X0
+// and (cluster) Kill K0, with at least one direct redistribution.
+func enumerateB(kind string, length int) [][]string {
+	alpha := []string{"D0", "A0", "B0", "Q0", "U0", "X0"}
+	if kind == "vsys" {
+		alpha = append(alpha, "K0")
+	}
+	var out [][]string
+	var rec func(h []string, direct bool)
+	rec = func(h []string, direct bool) {
+		if len(h) == length {
+			if direct {
+				out = append(out, append([]string{}, h...))
+			}
+			return
+		}
+		for _, o := range alpha {
+			rec(append(h, o), direct || isDirect(o[0]))
+		}
+	}
+	if length >= 2 {
+		rec([]string{"R"}, false)
+	}
 	return out
 }
 
@@ -879,11 +963,34 @@ func main() {
 		depth = 5
 		budget = 9 * time.Minute
 	}
-	progs := []string{"s1", "s2", "sh"}
-	// the additional program "sh" (result out of a shuffle) is explored one level
-	// less deep on the cluster, where a history costs ~0.5 CPU-seconds
-	depthOf := func(kind, prog string) int {
-		if kind == "vsys" && prog == "sh" {
+	progs := []string{"s1", "s2", "s3", "sh"}
+	// Space A: general alphabet R S P H X (K0 K1), no direct redistribution.
+	// Space B: R then {D0 A0 B0 Q0 U0 X0 (K0)}* with >= 1 direct redistribution.
+	// A history on the cluster costs ~0.5 CPU-seconds, so the cluster part is less
+	// deep for some programs (stated in the evidence rule).
+	depthOf := func(space, kind, prog string) int {
+		if kind == "local" {
+			return depth
+		}
+		if space == "A" {
+			if r.Thorough() {
+				if prog == "s1" || prog == "s2" {
+					return depth
+				}
+				return depth - 1
+			}
+			if prog == "s2" {
+				return depth
+			}
+			return depth - 1
+		}
+		if r.Thorough() {
+			if prog == "s2" || prog == "s3" {
+				return depth
+			}
+			return depth - 1
+		}
+		if prog == "sh" {
 			return depth - 1
 		}
 		return depth
@@ -909,17 +1016,22 @@ func main() {
 	var jobs []job
 	if *flagOnly != "" {
 		f := strings.Split(*flagOnly, ":")
-		jobs = append(jobs, job{0, f[0], f[1], strings.Split(f[2], ",")})
+		jobs = append(jobs, job{0, f[0], f[1], strings.Split(f[2], ","), "only"})
 	} else {
 		for l := 1; l <= depth; l++ {
 			for _, kind := range []string{"local", "vsys"} {
-				hs := enumerate(kind, l)
-				for _, prog := range progs {
-					if l > depthOf(kind, prog) {
-						continue
+				for _, space := range []string{"A", "B"} {
+					hs := enumerate(kind, l)
+					if space == "B" {
+						hs = enumerateB(kind, l)
 					}
-					for _, h := range hs {
-						jobs = append(jobs, job{len(jobs), kind, prog, h})
+					for _, prog := range progs {
+						if l > depthOf(space, kind, prog) {
+							continue
+						}
+						for _, h := range hs {
+							jobs = append(jobs, job{len(jobs), kind, prog, h, space})
+						}
 					}
 				}
 			}
@@ -972,7 +1084,7 @@ func main() {
 			continue
 		}
 		executed++
-		perSpace[rec.Kind+"/"+rec.Prog]++
+		perSpace[jobs[rec.Idx].space+"/"+rec.Kind+"/"+rec.Prog]++
 		transitions += int64(len(rec.Outcomes))
 		for _, s := range rec.States {
 			states.Add(rec.Kind + "/" + rec.Prog + " " + s)
@@ -1003,6 +1115,7 @@ func main() {
 		sig string
 		rec *histRec
 		ok  bool
+		n   int
 		v   viol
 	}
 	var conf []*confirm
@@ -1018,9 +1131,9 @@ func main() {
 				c.v = v
 			}
 		}
-		c.ok = true
-		for rep := 0; rep < 2 && c.ok; rep++ {
-			rr := runBatch(self, []job{{c.rec.Idx, c.rec.Kind, c.rec.Prog, c.rec.Ops}})
+		c.n = 1
+		for rep := 0; rep < 2; rep++ {
+			rr := runBatch(self, []job{{c.rec.Idx, c.rec.Kind, c.rec.Prog, c.rec.Ops, ""}})
 			again := false
 			for _, rec := range rr {
 				for _, v := range sigsOf(rec) {
@@ -1029,15 +1142,18 @@ func main() {
 					}
 				}
 			}
-			c.ok = c.ok && again
+			if again {
+				c.n++
+			}
 		}
+		c.ok = c.n == 3 || c.v.Safety
 	})
 	confirmed := map[string]bool{}
 	unconfirmed := 0
 	for _, c := range conf {
 		if c.ok && !confirmed[c.sig] {
 			confirmed[c.sig] = true
-			c.v.Detail["reproduced"] = "3 of 3 executions in fresh processes"
+			c.v.Detail["reproduced"] = fmt.Sprintf("%d of 3 executions of this history in fresh processes", c.n)
 			c.v.Detail["histories_with_this_signature_first_pass"] = countSig(recs, c.sig)
 			r.Violate(c.sig, c.v.What, c.v.Detail)
 		}
@@ -1060,7 +1176,7 @@ func main() {
 	}
 
 	// ---- samples: a few histories written out
-	for _, want := range []string{"local/s2 R X0 S0", "local/sh R X0 H0 S0", "vsys/s2 R K0 S0", "vsys/s2 R K0 P0 S0", "vsys/sh R X0 K1 H0", "local/s1 R R X0 P1", "vsys/s1 R K0 K0 H0", "local/s2 R D0"} {
+	for _, want := range []string{"local/s2 R X0 S0", "local/sh R X0 H0 S0", "vsys/s2 R K0 S0", "vsys/s2 R K0 P0 S0", "vsys/sh R X0 K1 H0", "local/s1 R R X0 P1", "vsys/s3 R A0 Q0", "vsys/s3 R Q0 X0 U0", "vsys/s2 R B0 K0 U0"} {
 		for _, rec := range recs {
 			if rec != nil && rec.Kind+"/"+rec.Prog+" "+strings.Join(rec.Ops, " ") == want {
 				r.Sample(map[string]interface{}{"executor": rec.Kind, "program": rec.Prog, "history": strings.Join(rec.Ops, " "),
@@ -1070,10 +1186,18 @@ func main() {
 		}
 	}
 
+	depthTable := map[string]int{}
+	for _, space := range []string{"A", "B"} {
+		for _, kind := range []string{"local", "vsys"} {
+			for _, prog := range progs {
+				depthTable[space+"/"+kind+"/"+prog] = depthOf(space, kind, prog)
+			}
+		}
+	}
 	layerH := map[string]interface{}{
-		"depth":                     depth,
-		"alphabet":                  "R | S<i> P<i> H<i> X<i> D<i> for i in live results (max 2) | K0 K1 (verifsystem only)",
-		"programs":                  "s1: Const(1 shard,5 rows)->Map; s2: Const(2 shards)->Map; sh: Const(2)->Map->Reduce (result out of a shuffle)",
+		"depth":                     depthTable,
+		"alphabet":                  "space A: R | S<i> P<i> H<i> X<i> for i in live results (max 2) | K0 K1 (cluster only).  space B: R then {D0 A0 B0 Q0 U0 X0 | K0 (cluster only)}* with at least one direct redistribution; D=Reduce, A=Reshard(r,2), B=Reshard(r,3), Q=Repartition(r, k mod n), U=Repartition(r, (2k+1) mod n), each applied DIRECTLY to the result",
+		"programs":                  "s1/s2/s3: Const(1/2/3 shards, 5 rows)->Map; sh: Const(2)->Map->Reduce (result out of a shuffle)",
 		"histories_enumerated":      len(jobs),
 		"histories_executed":        executed,
 		"histories_per_space":       perSpace,
@@ -1087,7 +1211,7 @@ func main() {
 		"signatures_first_pass":     len(sigOrder),
 		"signatures_not_confirmed":  unconfirmed,
 		"unconfirmed":               unconfDetail,
-		"rule":                      "every history up to the depth is replayed in a fresh session (state de-duplication is used for counting only); cluster: verifsystem, 2 procs/machine, Parallelism(4), fast retries, DoShuffleReaders=false; a signature is reported only when reproduced 3 of 3 times",
+		"rule":                      "two spaces of histories, each history replayed in a fresh session (state de-duplication is used for counting only). Space A = all histories over the general alphabet (no direct redistribution) up to the depth in the depth table; space B = all histories R·w, w over five DIFFERENT direct redistributions of r0 plus Discard and (cluster) Kill, containing at least one direct redistribution, up to the depth in the table, so that every ordered pair of direct re-shuffles of one result occurs, also with a Discard or Kill in between. To keep the cluster part affordable (about 0.5 CPU-seconds per history) space A is one level less deep on the cluster for all programs but s2 (quick) / for s3 and sh (thorough), and space B one level less deep for sh (quick) / s1 and sh (thorough); direct redistributions are not mixed with P/H/second results. Cluster: verifsystem, 2 procs/machine, Parallelism(4), fast retries, keepalive 20/200/100 ms, DoShuffleReaders=false; an error/hang signature is reported only when one of its simplest histories reproduces it 3 of 3 times, a wrong-rows signature on its first occurrence (re-executed, reproduction count recorded)",
 	}
 
 	// ---- layer S
